@@ -24,3 +24,18 @@ def der_roundtrip(r, s):
 
 def der_of(r, s):
     return Signature(r, s).der()
+
+
+def schnorr_sign_bytes(d, msg, aux):
+    return PrivateKey(d).sign_schnorr(msg, aux).serialize()
+
+
+def schnorr_verify_bytes(pub, msg, sig):
+    """verification as a user receives it: 64 signature bytes"""
+    return pub.verify_schnorr(msg, SchnorrSignature.parse(sig))
+
+
+def schnorr_sign_then_verify(d, msg, aux):
+    pk = PrivateKey(d)
+    sig = pk.sign_schnorr(msg, aux)
+    return pk.point.verify_schnorr(msg, SchnorrSignature.parse(sig.serialize()))
